@@ -611,10 +611,11 @@ def translate(m, elems):
               'else { for (u64 i = k; i > 0; i--) dd[i-1] = ss[i-1]; } }' % (hname, cty, cty, cty, cty, size, size))
         elif kind == 'talloc':
             zero = '0' if cty.startswith('u') or cty.endswith('*') or cty in ('float', 'double') else '(%s){0}' % cty
-            cases = '\n'.join('#if VF_MAXALLOC >= %d && VF_MINALLOC <= %d\n    case %d: p = (%s*)malloc(sizeof(%s) * %d); __CPROVER_assume(p != 0); for (int i = 0; i < %d; i++) p[i] = %s; break;\n#endif' % (k, k, k, cty, cty, max(k, 1), max(k, 1), zero) for k in range(0, 25))
-            helpers.append('#ifndef VF_MAXALLOC\n#define VF_MAXALLOC 24\n#endif\n#ifndef VF_MINALLOC\n#define VF_MINALLOC 0\n#endif\n'
+            cases = '\n'.join('#if VF_MAXALLOC >= %d && VF_MINALLOC <= %d && ((VF_ALLOCMASK >> %d) & 1)\n    case %d: p = (%s*)malloc(sizeof(%s) * %d); __CPROVER_assume(p != 0); %s break;\n#endif' % (k, k, k, k, cty, cty, max(k, 1), ' '.join('p[%d] = %s;' % (i, zero) for i in range(max(k, 1)))) for k in range(0, 25))
+            cases = cases.replace('XX', '')
+            helpers.append('#ifndef VF_MAXALLOC\n#define VF_MAXALLOC 24\n#endif\n#ifndef VF_MINALLOC\n#define VF_MINALLOC 0\n#endif\n#ifndef VF_ALLOCMASK\n#define VF_ALLOCMASK 0xffffffffu\n#endif\n'
               'static u8 *%s(u64 n) {\n  VF_RT_ASSERT(n <= VF_MAXALLOC, "bound: allocation request exceeds the modelled block size bound");\n'
-              '#ifdef __CPROVER__\n  %s *p = 0; VF_RT_ASSERT(n >= VF_MINALLOC, "bound: allocation request below the modelled minimum block size"); __CPROVER_assume(n <= VF_MAXALLOC && n >= VF_MINALLOC);\n  switch (n) {\n%s\n    default: break; }\n  return (u8*)p;\n'
+              '#ifdef __CPROVER__\n  %s *p = 0; VF_RT_ASSERT(n >= VF_MINALLOC, "bound: allocation request below the modelled minimum block size"); VF_RT_ASSERT(n > 31 || ((VF_ALLOCMASK >> n) & 1), "bound: allocation request of a size outside the modelled set of block sizes"); __CPROVER_assume(n <= VF_MAXALLOC && n >= VF_MINALLOC && ((VF_ALLOCMASK >> n) & 1));\n  switch (n) {\n%s\n    default: break; }\n  return (u8*)p;\n'
               '#else\n  return (u8*)calloc(n ? n : 1, sizeof(%s));\n#endif\n}' % (hname, cty, cases, cty))
         elif kind == 'set':
             if isint:
